@@ -10,7 +10,9 @@ search:  the real report text is read back (Spec.Report.parseTable / parseLcdLis
          driver) and compared with the real machine-readable output through Spec.Report.shownOk; option
          logic (warnings, default model, totals vs --ignore-unknown) against the call's own options.
 levels:  1 = Frontend on synthetic analyses (any ports / magnitudes, high volume);
-         2 = osaca.inspect end to end on shipped examples, test kernels and generated files.
+         2 = osaca.inspect end to end on shipped examples, test kernels and generated files;
+         3 = from FILE TEXT to the report inside the model (harness/e2e.py): `--fixed` (e2e.x86 / e2e.a64) and the default
+             optimal scheduling (e2e.opt: `analyseWith` on the implementation's pressures, admissibility of the first pass).
 """
 import glob
 import io
@@ -39,6 +41,12 @@ TRUSTED = [
     "Model/Glue.lean (x86: no indexed registers, segment extensions, identifier displacements in compared memory operands; "
     "AArch64: no identifier / float offsets or symbolic post-index in memory operands, float immediates only where no "
     "operation reads them, no port_pressure alternatives)",
+    "optimal scheduling (e2e.opt): the balancer ArchSemantics.assign_optimal_throughput is not modelled as a function; the "
+    "implementation's per-line port_pressure after its two calls (captured by wrapping the method) is an INPUT of "
+    "EndToEnd.analyseWith, judged by Spec.checkFeasible against the line's micro-ops (slack INC/2 per micro-op + 1e-9); the "
+    "state after the second call is only counted when inadmissible (known C01 finding `second-pass`), so are lines whose "
+    "micro-ops carry a throughput multiplier < 1 (finding, notes/EndToEnd.md); totals whose float sum sits on a rounding tie "
+    "may show either neighbour",
 ]
 
 QUICK_ARCHS = ["spr", "v2", "zen2", "tx2"]
@@ -453,8 +461,10 @@ def level2_specs(ctx, archs, isa_of, volume):
 # ------------------------------------------------------------------------------------------- run
 def setup(ctx):
     ctx.assumptions = TRUSTED
-    ctx.prove(["ReportConsts"], ["OsacaVerif.Props.C13", "OsacaVerif.Props.EndToEnd", "OsacaVerif.Props.EndToEndA64"])
-    ctx.thorough_recheck(["OsacaVerif.Props.C13", "OsacaVerif.Props.EndToEnd", "OsacaVerif.Props.EndToEndA64"])
+    ctx.prove(["ReportConsts"], ["OsacaVerif.Props.C13", "OsacaVerif.Props.EndToEnd", "OsacaVerif.Props.EndToEndA64",
+                                 "OsacaVerif.Props.EndToEndOpt"])
+    ctx.thorough_recheck(["OsacaVerif.Props.C13", "OsacaVerif.Props.EndToEnd", "OsacaVerif.Props.EndToEndA64",
+                          "OsacaVerif.Props.EndToEndOpt"])
     archs = QUICK_ARCHS if ctx.tier == "quick" else core.shipped_archs()
     # level 3 additionally reads the shipped models of the end-to-end correspondence (levels 1 and 2 keep their list)
     ctx.env = core.Env("C13", archs=archs + [a for a in E2E_SHIPPED + E2E_SHIPPED_A64 if a not in archs])
@@ -506,11 +516,18 @@ def run(ctx):
     # ---- level 3: from file text to the report inside the model (Model/EndToEnd.lean, driver ops e2e.x86 / e2e.a64)
     t = time.time()
     boost3 = 3 if ctx.broken else 1
-    vol3, svol3 = ((5, 4) if ctx.tier == "quick" else (45, 45))
-    avol3, asvol3 = ((5, 4) if ctx.tier == "quick" else (40, 40))
+    vol3, svol3 = ((4, 3) if ctx.tier == "quick" else (40, 40))
+    avol3, asvol3 = ((4, 3) if ctx.tier == "quick" else (35, 35))
     e2e.run_e2e_correspondence(ctx, vol3 * boost3, shipped=E2E_SHIPPED, shipped_volume=svol3 * boost3,
                                a64_volume=avol3 * boost3, a64_shipped=E2E_SHIPPED_A64, a64_shipped_volume=asvol3 * boost3)
-    ctx.log("level 3 (file text -> report, model vs command line): %.0fs" % (time.time() - t))
+    # the same tie on the DEFAULT (optimal) scheduling path: the command line without `--fixed`, the model's `analyseWith` on the
+    # implementation's pressures after the two balancing passes (driver op e2e.opt), admissibility of the first-pass pressures
+    t_opt = time.time()
+    ovol3, osvol3 = ((2, 2) if ctx.tier == "quick" else (12, 12))
+    e2e.run_e2e_correspondence(ctx, ovol3 * boost3, shipped=E2E_SHIPPED, shipped_volume=osvol3 * boost3,
+                               a64_volume=ovol3 * boost3, a64_shipped=E2E_SHIPPED_A64, a64_shipped_volume=osvol3 * boost3, opt=True)
+    ctx.log("level 3 (file text -> report, model vs command line): %.0fs, of which optimal scheduling %.0fs"
+            % (time.time() - t, time.time() - t_opt))
     # ---- coverage
     ev = ctx.counts.get("L1_cases", 0) + ctx.counts.get("L2_cases", 0)
     ctx.cov["evaluations"] = ev
@@ -532,8 +549,58 @@ def run(ctx):
     return ctx.finish(trusted=TRUSTED)
 
 
+def replay_e2e_opt(ctx, rep):
+    """one run of the command line without `--fixed` against `analyseWith` on the pressures the balancer left (replay of kind
+    `e2e-opt`: file text, model, options)"""
+    ctx.lean.build_driver()
+    ctx.driver = ctx.lean.start_driver()
+    isa = rep.get("isa", "x86")
+    arch = rep["arch"]
+    ctx.env = core.Env("C13", archs=[arch] if not rep.get("synthetic") else ["spr", "tx2"])
+    ctx.env.activate()
+    import warnings
+
+    warnings.filterwarnings("ignore")
+    from osaca.parser import ParserAArch64, ParserX86ATT
+    from osaca.semantics import MachineModel
+    from harness import dgenc, pressure
+
+    if rep.get("synthetic"):
+        model = rep["model"]
+        e2e.install_model(ctx, model, arch)
+        small = {k: model[k] for k in e2e.MODEL_KEYS if k in model}
+        stlf = core.frac(float(model.get("store_to_load_forward_latency", 0.0)))
+        pidx = core.frac(float(model.get("p_index_latency", 1.0)))
+    else:
+        parser = ParserX86ATT() if isa == "x86" else ParserAArch64()
+        mns = set()
+        e2e._mnemonics(parser, rep["file"].split("\n"), mns)
+        small = e2e.restrict_model(pressure.load_raw(arch), mns, isa)
+        stlf, pidx = dgenc.model_params(MachineModel(arch=arch))
+    st = {k: 0 for k in ["files", "runs", "compared", "disagreements", "impl_errors", "errors_agreed", "edges", "cycles", "lines",
+                         "unknown_lines", "memory_lines", "reports_equal"]}
+    e2e.run_cases(ctx, arch, pressure.yenc(small), stlf, pidx,
+                  [("replay", rep["file"], rep.get("lines_arg"), bool(rep.get("flag_deps")), bool(rep.get("ignore_unknown")))],
+                  st, "replay", isa, opt=True, replay_info={"synthetic": bool(rep.get("synthetic")), "arch": arch})
+    print("optimal scheduling, %s on %s: %d run, %d analysis compared, %d disagreements; first pass inadmissible %d, raised %d; "
+          "final state inadmissible %d" % (isa, arch, st["runs"], st["compared"], st["disagreements"],
+                                           st.get("first_pass_inadmissible", 0), st.get("first_pass_raised", 0),
+                                           st.get("final_state_inadmissible", 0)))
+    for v in ctx.violations:
+        print("STILL FAILING:", v["what"])
+    for b in ctx.broken:
+        print("MODEL AND CODE DISAGREE:", str(b)[:600])
+    rc = 1 if ctx.violations else 0
+    print("REPLAY: %s" % ("the input still violates the admissibility of the first balancing pass" if rc else
+                          "the first-pass pressures are admissible on this input with the current tree"))
+    ctx.cleanup()
+    return rc
+
+
 def replay(ctx, path):
     rep = json.load(open(path))["replay"]
+    if rep.get("kind") == "e2e-opt":
+        return replay_e2e_opt(ctx, rep)
     spec = rep.get("case")
     if not spec:
         print("replay names a broken theorem/correspondence, not an input:", json.dumps(rep)[:800])
